@@ -68,12 +68,13 @@ type C14Step struct {
 }
 
 type C14Case struct {
-	Cfg     EngCfg     `json:"cfg"`
-	Env     *Env       `json:"env"`
-	RootRel string     `json:"root_rel"` // e.g. "r1/r2/root.html" below the case directory
-	Root    []*TNode   `json:"root"`
-	Source  string     `json:"source"`
-	Files   []*C14File `json:"files"`
+	Cfg      EngCfg     `json:"cfg"`
+	Env      *Env       `json:"env"`
+	RootRel  string     `json:"root_rel"`                // e.g. "r1/r2/root.html" below the case directory
+	Pathless bool       `json:"pathless_root,omitempty"` // the root is parsed WITHOUT a source path (ParseString); includes then resolve against the working directory, which is the root directory for the duration of the case
+	Root     []*TNode   `json:"root"`
+	Source   string     `json:"source"`
+	Files    []*C14File `json:"files"`
 	// a second root in a sibling directory that includes the same files (and has
 	// files of the same names of its own): nested includes must resolve against
 	// whichever root is being rendered
@@ -98,6 +99,7 @@ func genC14(seed uint64, r *Rng, idx, vecs int) *C14Case {
 		dirs = append(dirs, fmt.Sprintf("r%d", i))
 	}
 	cs.RootRel = filepath.Join(append(dirs, "root.html")...)
+	cs.Pathless = gr.Chance(0.2)
 	cs.Env = GenEnv(gr.Fork(1), 0, 4)
 	n := gr.Range(1, 4)
 	if gr.Chance(0.2) {
@@ -114,6 +116,11 @@ func genC14(seed uint64, r *Rng, idx, vecs int) *C14Case {
 		cs.Env.Vals = append(cs.Env.Vals, &LV{T: "str", S: f.Rel})
 		cs.Env.Names = append(cs.Env.Names, fmt.Sprintf("stem%d", i))
 		cs.Env.Vals = append(cs.Env.Vals, &LV{T: "str", S: strings.TrimSuffix(f.Rel, ".html")})
+		// the same name behind a pointer and behind a Drop that yields a Drop
+		cs.Env.Names = append(cs.Env.Names, fmt.Sprintf("incp%d", i))
+		cs.Env.Vals = append(cs.Env.Vals, &LV{T: "str", S: f.Rel, R: "ptr"})
+		cs.Env.Names = append(cs.Env.Names, fmt.Sprintf("incd%d", i))
+		cs.Env.Vals = append(cs.Env.Vals, &LV{T: "drop", A: []*LV{{T: "drop", A: []*LV{{T: "str", S: f.Rel}}}}})
 	}
 	argsFor := func(i int) []string {
 		f := cs.Files[i]
@@ -121,7 +128,8 @@ func genC14(seed uint64, r *Rng, idx, vecs int) *C14Case {
 		return []string{quote(f.Rel), quote(f.Rel), fmt.Sprintf("inc%d", i), fmt.Sprintf(`stem%d | append: ".html"`, i),
 			quote("./" + f.Rel), quote("x/../" + f.Rel),
 			quote(stem) + ` | append: ".html"`, `'` + stem + `' | append: '.html'`, quote("zz"+f.Rel) + ` | remove: "zz"`,
-			quote("zz"+f.Rel) + ` | replace: "zz", ""`, quote(f.Rel) + ` | slice: 0, 99`}
+			quote("zz"+f.Rel) + ` | replace: "zz", ""`, quote(f.Rel) + ` | slice: 0, 99`,
+			fmt.Sprintf("incp%d", i), fmt.Sprintf("incd%d", i), quote("y//../" + f.Rel)}
 	}
 	// file contents: file i may include files j>i if it lives in the root's directory
 	for i := n - 1; i >= 0; i-- {
@@ -177,7 +185,7 @@ func genC14(seed uint64, r *Rng, idx, vecs int) *C14Case {
 	// make sure at least one include executes unconditionally
 	root = append(root, &TNode{K: "tag", S: "include " + pick(gr2, argsFor(gr2.Intn(n)))})
 	cs.Root = root
-	if gr2.Chance(0.6) {
+	if gr2.Chance(0.6) && !cs.Pathless {
 		// second root in a sibling directory of the first
 		d := append(append([]string{}, dirs[:len(dirs)-1]...), "q1")
 		cs.Root2Rel = filepath.Join(append(d, "root2.html")...)
@@ -318,12 +326,14 @@ func segment(out string, id int) (string, bool) {
 // ---- execution ----
 
 type c14Run struct {
-	cs      *C14Case
-	dir     string // case directory
-	rootAbs string // of the root currently being rendered
-	rootDir string
-	other   *liquid.Engine
-	roots   [2]struct {
+	cs        *C14Case
+	dir       string // case directory
+	rootAbs   string // of the root currently being rendered
+	rootDir   string
+	other     *liquid.Engine
+	roots0dir string
+	oldwd     string
+	roots     [2]struct {
 		abs, dir string
 		tpl      *liquid.Template
 		tree     []*TNode
@@ -340,6 +350,33 @@ type c14Run struct {
 
 func (x *c14Run) abs(rel string) string { return filepath.Join(x.rootDir, rel) }
 
+// parse parses a template the way the root of this case is parsed: with the current
+// root's path, or with no path at all.
+func (x *c14Run) parse(src string) Parsed {
+	if x.cs.Pathless {
+		return Parse(x.eng, src)
+	}
+	return ParseLoc(x.eng, src, x.rootAbs, 1)
+}
+
+// cacheKey is the path under which source for the file at absolute path p is registered.
+func (x *c14Run) cacheKey(p string) string {
+	if x.cs.Pathless {
+		if rel, err := filepath.Rel(x.roots0dir, p); err == nil {
+			return rel
+		}
+	}
+	return p
+}
+
+// absPath maps a path the library used (relative when the root has no path) to the model's absolute path.
+func (x *c14Run) absPath(p string) string {
+	if !filepath.IsAbs(p) {
+		return filepath.Join(x.roots0dir, p)
+	}
+	return p
+}
+
 func c14Setup(cs *C14Case, scratch string, tag string) (*c14Run, Res) {
 	cs.Cfg.apply()
 	wrapIncludes = true
@@ -348,8 +385,15 @@ func c14Setup(cs *C14Case, scratch string, tag string) (*c14Run, Res) {
 	os.RemoveAll(x.dir)
 	x.rootAbs = filepath.Join(x.dir, cs.RootRel)
 	x.rootDir = filepath.Dir(x.rootAbs)
+	x.roots0dir = x.rootDir
 	if err := os.MkdirAll(x.rootDir, 0o755); err != nil {
 		fatal("mkdir: %v", err)
+	}
+	if cs.Pathless {
+		x.oldwd, _ = os.Getwd()
+		if err := os.Chdir(x.rootDir); err != nil {
+			fatal("chdir: %v", err)
+		}
 	}
 	x.eng = NewEngine(cs.Cfg)
 	registerSnap(x.eng)
@@ -373,7 +417,7 @@ func c14Setup(cs *C14Case, scratch string, tag string) (*c14Run, Res) {
 		for k, val := range ctx.Bindings() {
 			vars[k] = val
 		}
-		p := ParseLoc(x.eng, src, x.rootAbs, 1)
+		p := x.parse(src)
 		if p.T == nil {
 			return "", ctx.Errorf("refinc: %s", p.Err.Err)
 		}
@@ -406,7 +450,7 @@ func c14Setup(cs *C14Case, scratch string, tag string) (*c14Run, Res) {
 		content, alt := Source(f.Tree), Source(f.Alt)
 		cacheIt := func(src string) Res {
 			return guard(func() Res {
-				if _, err := x.eng.ParseTemplateAndCache([]byte(src), p, 1); err != nil {
+				if _, err := x.eng.ParseTemplateAndCache([]byte(src), x.cacheKey(p), 1); err != nil {
 					return errRes(err, "parse")
 				}
 				x.cache[p] = src
@@ -444,18 +488,18 @@ func c14Setup(cs *C14Case, scratch string, tag string) (*c14Run, Res) {
 	for _, pl := range all {
 		p := pl.p
 		guard(func() Res {
-			x.other.ParseTemplateAndCache([]byte("[source registered with ANOTHER engine]"), p, 1)
+			x.other.ParseTemplateAndCache([]byte("[source registered with ANOTHER engine]"), x.cacheKey(p), 1)
 			return Res{}
 		})
 	}
 	includeMode = 0
 	src := Source(cs.Root)
-	p := ParseLoc(x.eng, src, x.rootAbs, 1)
+	p := x.parse(src)
 	if p.T == nil {
 		// does the same root parse once its include tags are taken out? Then an
 		// include tag with a well-formed argument expression was rejected.
 		x.roots[0].tree = cs.Root
-		if q := ParseLoc(x.eng, Source(stripIncludes(cs.Root)), x.rootAbs, 1); q.T != nil && p.Err.Panic == "" {
+		if q := x.parse(Source(stripIncludes(cs.Root))); q.T != nil && p.Err.Panic == "" {
 			p.Err.Stage = "include-rejected"
 		}
 		return nil, p.Err
@@ -491,7 +535,12 @@ func (x *c14Run) writeFile(p, content string) {
 	x.onDisk[p] = content
 }
 
-func (x *c14Run) cleanup() { os.RemoveAll(x.dir) }
+func (x *c14Run) cleanup() {
+	if x.oldwd != "" {
+		os.Chdir(x.oldwd)
+	}
+	os.RemoveAll(x.dir)
+}
 
 // choose: what the model says include of abs path p must render.
 // kind: "content" (src), "error", or "either" (error or src).
@@ -545,7 +594,7 @@ func (x *c14Run) mainRender2(fault map[int]error, pathFault map[string]error) c1
 
 // direct renders content "directly" with the recorded bindings.
 func (x *c14Run) direct(src string, vars map[string]any) Res {
-	p := ParseLoc(x.eng, src, x.rootAbs, 1)
+	p := x.parse(src)
 	if p.T == nil {
 		return p.Err
 	}
@@ -757,7 +806,7 @@ func stripIncludes(ns []*TNode) []*TNode {
 }
 
 func (x *c14Run) failsWithoutIncludes() bool {
-	p := ParseLoc(x.eng, Source(stripIncludes(x.roots[x.cur].tree)), x.rootAbs, 1)
+	p := x.parse(Source(stripIncludes(x.roots[x.cur].tree)))
 	if p.T == nil {
 		return true
 	}
@@ -777,7 +826,7 @@ func (x *c14Run) bareVsReference() *c14Out {
 		includeMode = mode
 		src := Source(tree)
 		includeMode = 0
-		p := ParseLoc(x.eng, src, x.rootAbs, 1)
+		p := x.parse(src)
 		if p.T == nil {
 			return p.Err
 		}
@@ -857,14 +906,14 @@ func (x *c14Run) applyStep(s C14Step) {
 	case "reregister-bad":
 		// a registration that fails to parse must leave an earlier registration alone
 		guard(func() Res {
-			x.eng.ParseTemplateAndCache([]byte(dTL+" if "+dTR+" unterminated"), p, 1)
+			x.eng.ParseTemplateAndCache([]byte(dTL+" if "+dTR+" unterminated"), x.cacheKey(p), 1)
 			return Res{}
 		})
 		return
 	case "reregister-good":
 		src := Source(f.Alt) + "<re-registered>"
 		r := guard(func() Res {
-			if _, err := x.eng.ParseTemplateAndCache([]byte(src), p, 1); err != nil {
+			if _, err := x.eng.ParseTemplateAndCache([]byte(src), x.cacheKey(p), 1); err != nil {
 				return errRes(err, "parse")
 			}
 			return Res{OK: true}
@@ -979,7 +1028,7 @@ func c14Find(c *Ctx, cs *C14Case, scratch, tag string, out *CaseOut, wantSig str
 		absent := map[string]Res{}
 		reads := map[string]int{}
 		for _, call := range base.fs {
-			reads[call.Path]++
+			reads[x.absPath(call.Path)]++
 		}
 		for j := -len(base.fs); j < len(base.fs); j++ {
 			// j<0: path-sticky fault on the path of call -j-1 (every read of it fails);
@@ -988,8 +1037,8 @@ func c14Find(c *Ctx, cs *C14Case, scratch, tag string, out *CaseOut, wantSig str
 			if j < 0 {
 				ci = -j - 1
 			}
-			p := base.fs[ci].Path
-			if j < 0 && (reads[p] < 2 || base.fs[ci].Path != p || firstRead(base.fs, p) != ci) {
+			p := x.absPath(base.fs[ci].Path)
+			if j < 0 && (reads[p] < 2 || firstRead(base.fs, base.fs[ci].Path) != ci) {
 				continue // a path read once is covered exactly by its per-call fault
 			}
 			if _, ok := absent[p]; !ok {
@@ -1001,7 +1050,7 @@ func c14Find(c *Ctx, cs *C14Case, scratch, tag string, out *CaseOut, wantSig str
 			for _, en := range errnos {
 				var o c14Out
 				if j < 0 {
-					o = x.mainRender2(nil, map[string]error{p: en.err})
+					o = x.mainRender2(nil, map[string]error{base.fs[ci].Path: en.err})
 				} else {
 					o = x.mainRender(map[int]error{j: en.err})
 				}
@@ -1010,7 +1059,7 @@ func c14Find(c *Ctx, cs *C14Case, scratch, tag string, out *CaseOut, wantSig str
 				for _, call := range o.fs {
 					if call.Injected {
 						fired = true
-					} else if call.Path == p {
+					} else if x.absPath(call.Path) == p {
 						exact = false
 					}
 				}
